@@ -16,7 +16,8 @@ LEVEL = 'exploration'
 RULE = ('token sequences over printables, CR/LF/BS/TAB/BEL/CAN/SUB/NUL/DEL, every escape sequence the FSM knows with each '
         'parameter in {omitted, 0, 1, 2, in range, == size, > size, 10^9}, unknown finals, truncated sequences, ESC ESC: '
         'ALL sequences up to the tier bound on tiny screens (enumerated) + random sequences of 5..60 tokens on screens up '
-        'to 24x80, as str and as bytes through latin-1 / utf-8 / cp437 decoders. After every write: no exception, grid '
+        'to 24x80, as str and as bytes through latin-1 / utf-8 / cp437 / cp932 / gbk / big5 decoders (double-byte characters '
+        'with ASCII-range trail bytes; malformed and truncated byte sequences). After every write: no exception, grid '
         'rows x cols single characters, cursor on screen, FSM in INIT => parameter stack empty. Every input is also fed '
         'in pieces (all cut points, up to 3 cuts, for inputs <= 10 units, incl. cuts inside escape sequences and inside '
         'multi-byte characters; random cuts beyond; one character at a time through process()) and must give the same '
